@@ -234,7 +234,7 @@ def sweep_strategy():
 
 
 def shards(tier, seed):
-    n, per, mx = (16, 15, 25) if tier == "quick" else (64, 120, 40)
+    n, per, mx = (16, 15, 25) if tier == "quick" else (64, 60, 40)
     specs = [{"n": per, "max_ops": mx, "seed": seed * 1000 + i} for i in range(n)]
     ns, pers = (16, 2) if tier == "quick" else (32, 20)
     specs += [{"sweep": True, "n": pers, "seed": seed * 1000 + 500 + i} for i in range(ns)]
